@@ -25,6 +25,8 @@ def repeat_seq(ip, s, seq, n):
     view = ip.as_view(s, seq)
     is_tuple = ip.kind_of_seq(s, seq) == "tuple"
     k = lit_int(n.t)
+    if k is None:
+        k = count_from_pc(ip, s, n.t)       # e.g. `hist.dim` with `hist.dim == 1` among the hypotheses
     if view.items is not None and k is not None:
         items = list(view.items) * max(k, 0)
         return Tup(items) if is_tuple else ip.new_cell(s, PyListCell(items))
@@ -266,6 +268,8 @@ def parse_shape(ip, ty):
     head, args = parse_type(ty)
     if head == "Tuple":
         return ("tuple", [parse_shape(ip, a) for a in args])
+    if head == "PyList":
+        return ("list", [parse_shape(ip, args[1])] * int(args[0]))      # a list of concrete length
     sort = ip.lst_sort(ty)           # registers Lst_<elem>; raises Unsupported for other types
     return ("leaf", ip.reg.lst_elem[sort])
 
@@ -302,7 +306,12 @@ def struct_view(ip, cell):
     def build(shape, i, it):
         if shape[0] == "leaf":
             return ip.wrap(reg.l_get(next(it), i))
-        return Tup([build(s, i, it) for s in shape[1]])
+        items = [build(s, i, it) for s in shape[1]]
+        if shape[0] == "list":
+            v = ip.items_view(items)          # immutable stand-in for the yielded list (same items, still a `list`)
+            v.pykind = "list"
+            return v
+        return Tup(items)
     return View(reg.l_len(cell.comps[0]), lambda i: build(cell.shape, i, iter(cell.comps)))
 
 
@@ -318,8 +327,9 @@ def struct_append(ip, st, cell, v):
             return
         view = ip.as_view(st, x) if not isinstance(x, Tup) else None
         items = x.items if isinstance(x, Tup) else view.items
-        if items is None or len(items) != len(shape[1]) or not (isinstance(x, Tup) or ip.kind_of_seq(st, x) == "tuple"):
-            raise U("yielded value %r does not have the declared tuple shape" % (x,))
+        kind = "tuple" if isinstance(x, Tup) else ip.kind_of_seq(st, x)
+        if items is None or len(items) != len(shape[1]) or kind != shape[0]:
+            raise U("yielded value %r does not have the declared shape" % (x,))
         for s, y in zip(shape[1], items):
             walk(s, y)
     walk(cell.shape, v)
@@ -342,7 +352,14 @@ def struct_havoc(ip, st, cell, name):
 def _binop_lib(opcls):
     def impl(ip, st, pos, kws):
         if len(pos) != 2 or kws:
-            raise U("operator function with other than two positional arguments")
+            # python raises TypeError (an obligation that only an infeasible path can discharge)
+            if ip.may_catch(st, "TypeError"):
+                ip.raise_(st, "TypeError")
+                return []
+            ip.emit("safety", "operator-function-takes-two-arguments", st, FALSE)
+            st.assume(FALSE)            # (the path is dead once that obligation is discharged)
+            sort = pos[0].sort if pos and isinstance(pos[0], Num) else "Int"
+            return [(st, Num(ip.reg.new("dead", sort)))]
         return ip.binop(opcls(), pos[0], pos[1], st)
     return impl
 
@@ -507,6 +524,230 @@ def sum_symbolic(ip, st, view, start):
 def sp_lsum(ip, st, pos, kws):
     """lsum(xs, n): xs[0] + ... + xs[n-1] (reference function: a recursive definition over the mathematical numbers)"""
     from .speclib import lst_term
-    X = lst_term(ip, st, pos[0])
+    try:
+        view = ip.as_view(st, pos[0])
+        empty = view.items is not None and not view.items
+    except Exception:
+        empty = False
+    X = lst_term(ip, st, pos[0], ip.reg.lst("Real") if empty else None)       # (an empty display: sum 0 of any sort)
     f = declare_lsum(ip.reg, X.sort)
     return Num(T("(%s %s %s)" % (f, X.s, ip.num(pos[1]).s), ip.reg.lst_elem[X.sort]))
+
+
+# --------------------------------------------------------------------------- typed abstract callables
+# field / parameter type  Fn[A1,...,An,R]: a user callable known to return a value of type R for arguments of types Ai
+# (a typing assumption of the contract case, like `Obj` for elements): calling it denotes an uninterpreted function of the
+# callable and its arguments.  R may be Int, Real, Bool, V, Obj or a Tuple of these.
+def make_fn(ip, args, name, st):
+    if len(args) < 1:
+        raise U("Fn[...] needs a result type")
+    obj = ip.reg.new(name, "Obj")
+    return Fun("absfn", obj=Opaque(obj), argtys=list(args[:-1]), resty=args[-1], name=name)
+
+
+def call_absfn(ip, st, f, pos, kws):
+    from .calls import conform, Mismatch
+    from .interp import parse_type
+    if kws or len(pos) != len(f.argtys):
+        raise U("call of an abstract function with other arguments than declared")
+    terms = [f.obj.t]
+    for v, ty in zip(pos, f.argtys):
+        try:
+            c = conform(ip, st, v, ty)
+        except Mismatch:
+            raise U("argument %r of an abstract function does not have the declared type %s" % (v, ty))
+        if isinstance(c, (Num, Opaque)):
+            terms.append(c.t)
+        elif isinstance(c, Bool):
+            terms.append(c.t)
+        else:
+            raise U("abstract function argument of type " + ty)
+    ip.assumptions.add("typed abstract callable: a user function declared Fn[...] returns a value of the declared type "
+                       "and is a function of its arguments (it does not raise)")
+    counter = [0]
+
+    def build(ty):
+        head, args = parse_type(ty)
+        if head == "Tuple":
+            return Tup([build(a) for a in args])
+        if head not in ("Int", "Real", "Bool", "V", "Obj"):
+            raise U("abstract function result of type " + ty)
+        k = counter[0]
+        counter[0] += 1
+        fn = ip.reg.ufun("fn_%s_%s_%d" % ("_".join(t.sort for t in terms[1:]) or "unit", head, k), [t.sort for t in terms], head)
+        t = T("(%s %s)" % (fn, " ".join(x.s for x in terms)), head)
+        return Num(t) if head in ("Int", "Real") else Bool(t) if head == "Bool" else Opaque(t)
+    return [(st, build(f.resty))]
+
+
+def fill_may_change_context(ip, st, el, cur_state, v, arg):
+    """Contract(ghost={"fill_mutates_context": True}): the element given a (data, context) pair may change the context
+    dictionary in place (internal sequences of a cell do); the new content is an unknown function of element, state and
+    value"""
+    if not (isinstance(arg, Tup) and len(arg.items) == 2 and isinstance(arg.items[1], Ref)
+            and isinstance(st.heap[arg.items[1].cid], ValCell)):
+        return
+    g = ip.reg.ufun("el_fill_ctx_out", ["Obj", "St", "V"], "Val")
+    ip.store(st, arg.items[1], T("(%s %s %s %s)" % (g, el.t.s, cur_state.s, v.t.s), "Val"))
+
+
+def lib_product(ip, st, pos, kws):
+    """itertools.product(*seqs): the cartesian product in lexicographic order, as an iterator of tuples.  Supported:
+    sequences of concrete length (any number), or exactly one sequence of symbolic length (its items as 1-tuples)."""
+    from .builtins_ import consume_view
+    if kws:
+        raise U("itertools.product(repeat=...)")
+    views = [consume_view(ip, st, p) for p in pos]
+    if all(v.items is not None for v in views):
+        import itertools as _it
+        items = [Tup(list(c)) for c in _it.product(*[v.items for v in views])]
+        return [(st, ip.new_cell(st, IterCell(ip.items_view(items), I(0), name=None)))]
+    if len(views) != 1:
+        raise U("itertools.product of several sequences of symbolic length")
+    v = views[0]
+    view = View(v.len, lambda i: Tup([v.get(i)]))
+    if getattr(v, "guard_len", None) is not None:
+        view.guard_len = v.guard_len
+    ip.assumptions.add("library contract (tier A): itertools.product(seq) delivers the 1-tuples of the items of seq in order")
+    return [(st, ip.new_cell(st, IterCell(view, I(0), name=None)))]
+
+
+LIB[("itertools", "product")] = lib_product
+
+
+def count_from_pc(ip, s, n):
+    """a symbolic integer the path condition pins to a literal (`(= n k)`): that literal"""
+    for k in range(0, 8):
+        if ip.known(s, EQ(n, I(k))) or ip.known(s, EQ(I(k), n)):
+            return k
+    return None
+
+
+# --------------------------------------------------------------------------- list comprehensions of symbolic length
+def _sv_text(ip, v, depth=0):
+    """all SMT text a symbolic value is made of (to see which constants occur in it)"""
+    if isinstance(v, (Num, Bool, Opaque)):
+        return v.t.s
+    if isinstance(v, Tup):
+        return " ".join(_sv_text(ip, x, depth) for x in v.items)
+    if isinstance(v, View):
+        if getattr(v, "term", None) is not None:
+            return v.term.s
+        if v.items is not None:
+            return " ".join(_sv_text(ip, x, depth) for x in v.items)
+        if depth < 2:
+            try:
+                return v.len.s + " " + _sv_text(ip, v.get(T("pv%d" % next(ip.bound), "Int")), depth + 1)
+            except Exception:
+                return "?"
+    return ""
+
+
+def symbolic_listcomp(ip, st, snap, v):
+    """value of a list comprehension over a sequence of symbolic length; `v` is the lazy view of its items computed in
+    the snapshot `snap` of the state `st`"""
+    reg = ip.reg
+    sample, s2, new_consts = None, None, []
+    if not ip.spec_mode:
+        # One generic item (index q, 0 <= q < n) is evaluated here, not in spec mode: the safety obligations of the
+        # element expression (index in range, division by zero, callee preconditions) are emitted and its exceptions
+        # explored now; later looks at an item (mostly by contract clauses) are silent.
+        q = reg.new("ci", "Int")
+        n = getattr(v, "guard_len", None) or v.len
+        snap.pc.append(AND(CMP("<=", I(0), q), CMP("<", q, n)))
+        n0 = len(reg.const_decls)
+        try:
+            if getattr(v, "get2", None) is not None:
+                sample, s2 = v.get2(q)
+            else:
+                sample = v.get(q)
+            n_pc = len(snap.pc)
+        finally:
+            snap.pc.pop()
+        new_consts = list(reg.const_decls[n0:])
+    raw_get = v.get
+
+    def quiet_get(i):
+        ip.silent = getattr(ip, "silent", 0) + 1
+        n_exc = len(ip._exc_out)
+        try:
+            return raw_get(i)
+        finally:
+            ip.silent -= 1
+            del ip._exc_out[n_exc:]
+    v.get = quiet_get
+    if s2 is not None and new_consts:
+        # the element expression introduced unknowns (results of callees, new objects): they are unknowns PER ITEM
+        text = _sv_text(ip, freeze_new(ip, snap, s2, sample)) + " " + " ".join(h.s for h in s2.pc[n_pc:])
+        if any(name in text for name, _ in new_consts):
+            return skolem_listcomp(ip, st, snap, s2, v, q, n, sample, new_consts, n_pc)
+    if isinstance(sample, Ref) and s2 is not None:
+        sample = freeze_new(ip, snap, s2, sample)
+    if isinstance(sample, (Num, Bool)) or (isinstance(sample, Opaque) and sample.sort in ("V", "Obj", "Key", "Val")):
+        # items of a simple sort: the comprehension's value is a NEW list object (a heap cell with identity that can be
+        # stored, passed on and mutated), equal to the view item by item
+        from .builtins_ import sv_lst_sort
+        from .calls import materialise
+        return ip.new_cell(st, LstCell(materialise(ip, st, v, sv_lst_sort(ip, sample))))
+    return v
+
+
+def skolem_listcomp(ip, st, snap, s2, v, q, n, sample, new_consts, n_pc):
+    """[item for _ in seq] where evaluating the item creates unknowns (a callee's result, its effect on the allocation
+    clock): every unknown c becomes a function c$f(x) of the item's index x, the facts established by the evaluation of
+    the generic item hold for every index, and the list holds item(x) at x.  Conditions (else out-of-subset): the item
+    expression leaves everything that existed before untouched, and its value is a number, an abstract value or a new
+    list of those."""
+    from .builtins_ import sv_lst_sort, elem_term
+    reg = ip.reg
+    for cid, cell in snap.heap.items():
+        if s2.heap.get(cid) is not cell:
+            raise U("item expression of a comprehension of symbolic length changes an existing object")
+    for k in set(snap.env) | set(s2.env):
+        if k.startswith("$") and s2.env.get(k) is not snap.env.get(k):
+            raise U("item expression of a comprehension of symbolic length changes ghost state " + k)
+    x = "sk%d" % next(ip.bound)
+    sub = [(q.s, x)]
+    for name, sort in new_consts:
+        if name == q.s:
+            continue
+        fname = name[:-1] + "$f|"
+        reg.fun_decl(fname, "(declare-fun %s (Int) %s)" % (fname, sort))
+        sub.append((name, "(%s %s)" % (fname, x)))
+
+    def S(text):
+        for a, b in sub:
+            text = text.replace(a, b)
+        return text
+    length = ITE(CMP("<", n, I(0)), I(0), n) if not n.s.startswith("(len_Lst_") else n
+    rng = "(and (<= 0 %s) (< %s %s))" % (x, x, n.s)
+    facts = [h for h in s2.pc[n_pc:] if h.s != "true"]
+    if facts:
+        st.assume(T("(forall ((%s Int)) (=> %s (and %s)))" % (x, rng, " ".join(S(h.s) for h in facts)), "Bool"))
+    # the item as a term
+    if isinstance(sample, Ref):
+        cell = s2.heap.get(sample.cid)
+        if not isinstance(cell, LstCell) or sample.cid in snap.heap:
+            raise U("item of a comprehension of symbolic length: %s" % type(cell).__name__)
+        item = ip.deref(s2, sample)
+    elif isinstance(sample, (Num, Opaque)):
+        item = sample.t
+    else:
+        raise U("item of a comprehension of symbolic length: %r" % (sample,))
+    sort = reg.lst(item.sort)
+    t = reg.new("comp", sort)
+    ip.assume_wf(st, t)
+    st.assume(EQ(reg.l_len(t), length))
+    st.assume(T("(forall ((%s Int)) (! (=> %s (= %s %s)) :pattern (%s)))" % (
+        x, rng, reg.l_get(t, T(x, "Int")).s, S(item.s), reg.l_get(t, T(x, "Int")).s), "Bool"))
+    # ghost allocation clock: every item's evaluation may have advanced it
+    c0, c1 = snap.notes.get("$clock"), s2.notes.get("$clock")
+    if c1 is not None and (c0 is None or c0.s != c1.s):
+        k0 = clock(ip, st)
+        nk = reg.new("clock", "Int")
+        st.assume(CMP(">=", nk, k0))
+        st.assume(T("(forall ((%s Int)) (=> %s (>= %s %s)))" % (x, rng, nk.s, S(c1.s)), "Bool"))
+        st.notes["$clock"] = nk
+        if s2.notes.get("$alloc_init"):
+            assume_existing(ip, st)
+    return ip.new_cell(st, LstCell(t))
